@@ -331,7 +331,88 @@ def resolve(t, assign, sim):
     saved = sim.assign
     sim.assign = assign
     try:
-        return sim.resolve(t)
+        return restar(sim.resolve(t), sim)
+    finally:
+        sim.assign = saved
+
+
+def _star_runs(args, lens):
+    """Sim.star_runs on an argument list of a finished term: X[0], ..., X[n-1] in a row, X unpacked into exactly n targets, is *X"""
+    out, i = [], 0
+    while i < len(args):
+        a = args[i]
+        if is_tag(a, "idx") and a[2] == (_C0,):
+            n = lens.get(a[1])
+            if n and all(i + k < len(args) and args[i + k] == ("idx", a[1], (("c", "int", k),)) for k in range(n)):
+                out.append(("star", a[1]))
+                i += n
+                continue
+        out.append(a)
+        i += 1
+    return tuple(out)
+
+
+_C0 = ("c", "int", 0)
+
+
+def _restar_call(lens):
+    def f(x):
+        if is_tag(x, "call") and len(x) == 4 and isinstance(x[2], tuple) and len(x[2]) >= 2:
+            args = _star_runs(x[2], lens)
+            if args != x[2]:
+                return (x[0], x[1], args, x[3])
+        return x
+    return f
+
+
+def _unstar_call(lens):
+    def f(x):
+        if is_tag(x, "call") and len(x) == 4 and isinstance(x[2], tuple) and any(is_tag(a, "star") and lens.get(a[1]) for a in x[2]):
+            args = []
+            for a in x[2]:
+                n = lens.get(a[1]) if is_tag(a, "star") else None
+                if n:
+                    args.extend(("idx", a[1], (("c", "int", k),)) for k in range(n))
+                else:
+                    args.append(a)
+            return (x[0], x[1], tuple(args), x[3])
+        return x
+    return f
+
+
+def _lens(sim, spell):
+    """Sim.seqlen (sequence term -> number of targets it was unpacked into) with the keys as they look inside a resolved term.  Called under the
+    decisions of the path (sim.assign)."""
+    lens = dict(sim.seqlen)
+    for k, n in list(sim.seqlen.items()):
+        if isinstance(k, tuple):
+            r = sim.resolve(k)
+            lens.setdefault(r, n)
+            lens.setdefault(tmap(spell(lens), r), n)
+    return lens
+
+
+def restar(t, sim):
+    """the one spelling of `a, b = X; f(a, b, y)` and f(*X, y) (Sim.star_runs) applied again to a resolved term: when the unpacking sits in both
+    arms of a test (`if v: a, b = X  else: print(..); a, b = X`) the arguments of f are merged values while the call is evaluated and become
+    X[0], X[1] only once the merged conditionals with coinciding arms are collapsed.  Called under the decisions of the path (sim.assign)."""
+    if not sim.seqlen or not any(is_tag(x, "idx") and x[2] == (_C0,) for x in subterms(t)):
+        return t
+    return tmap(_restar_call(_lens(sim, _restar_call)), t)
+
+
+def unstar(t, sim, assign):
+    """the other spelling, used where two trees are judged to differ: *X with X unpacked into n targets on this path written X[0], ..., X[n-1],
+    so that `a, b = X; f(b, a, y)` against f(*X, y) is a difference between two complete argument lists and not one in a starred sequence"""
+    if not sim.seqlen or not any(is_tag(x, "star") for x in subterms(t)):
+        return t
+    saved, sim.assign = sim.assign, assign
+    try:
+        lens = _lens(sim, _restar_call)
+        for k, n in list(lens.items()):
+            if isinstance(k, tuple):
+                lens.setdefault(tmap(_unstar_call(lens), k), n)
+        return tmap(_unstar_call(lens), t)
     finally:
         sim.assign = saved
 
